@@ -77,6 +77,7 @@ func cmdVerify(argv []string) {
 	timeout := fs.Int("timeout", 0, "solver timeout in ms (default 8000 quick / 60000 thorough)")
 	verbose := fs.Bool("v", false, "verbose")
 	kinds := fs.String("kinds", "", "comma-separated obligation kinds to keep (default: all)")
+	cover := fs.Bool("cover", false, "also check that the antecedent of every implication clause is satisfiable where the clause is checked (default: on in the thorough tier)")
 	skip := fs.String("skip", "", "obligation names (separated by ;;) that are not claimed and need not be solved")
 	_ = fs.Parse(argv)
 	if *timeout == 0 {
@@ -85,6 +86,10 @@ func cmdVerify(argv []string) {
 			*timeout = 60000
 		}
 	}
+	if *tier == "thorough" {
+		*cover = true
+	}
+	coverClauses = *cover
 	if *smtdir == "" {
 		d, _ := os.MkdirTemp("", "govc-smt")
 		*smtdir = d
@@ -345,11 +350,11 @@ func cmdVerify(argv []string) {
 				return
 			}
 			tmo := *timeout
-			if j.o.Kind == "vacuity" && tmo > 5000 && *tier != "thorough" {
+			if j.o.Kind == "vacuity" && tmo > 5000 {
 				// a contradiction among the assumptions is found quickly or not at all
 				tmo = 5000
 			}
-			r := Solve(j.script, *smtdir, fname, tmo, *tier == "thorough")
+			r := Solve(j.script, *smtdir, fname, tmo, *tier == "thorough" && j.o.Kind != "vacuity")
 			if r.Status != "unsat" && r.Status != "sat" && j.lite != "" {
 				// retry without quantified facts: fewer assumptions, so only "unsat" is meaningful
 				r2 := Solve(j.lite, *smtdir, fname+"_lite", *timeout, false)
